@@ -21,7 +21,9 @@ VARIABLES wi,         \* index of the wire (case) in Wires
           canon,      \* canonical (byte-by-byte, unbounded) parser state for the prefix fed
           cstuck      \* first prefix length at which the canonical parser fills B bytes (0: none)
 vars == <<wi, rp, fed, lastOut, out, hist, canon, cstuck>>
-View == <<wi, rp, fed>>
+\* (the last component keeps a state reached by parse(0) apart from its VIEW-equal predecessor, so that histories of the
+\* form "..., parse(0), more calls" are emitted too - a call that should change nothing but does shows only there)
+View == <<wi, rp, fed, Len(hist) > 0 /\ hist[Len(hist)] = 0>>
 
 Own == 1            \* abstract ids: the encoder maps them to concrete 16-bit ids
 Other == 2
